@@ -5,12 +5,16 @@ import (
 	"encoding/hex"
 	"fmt"
 	"io"
+	stdlog "log"
+	"os"
 	"strconv"
 
 	"verifharness/contracts"
 	"verifharness/simpeer"
 
 	"github.com/anoideaopen/foundation/core"
+	"github.com/anoideaopen/foundation/core/logger"
+	"github.com/op/go-logging"
 	fpb "github.com/anoideaopen/foundation/proto"
 	"github.com/golang/protobuf/proto" //nolint:staticcheck
 	"github.com/sirupsen/logrus"
@@ -20,6 +24,11 @@ import (
 func init() {
 	logrus.SetOutput(io.Discard)
 	logrus.SetLevel(logrus.PanicLevel)
+	stdlog.SetOutput(io.Discard)
+	// the library's logger is created lazily without synchronisation: create it now, silenced
+	os.Setenv("CORE_CHAINCODE_LOGGING_LEVEL", "critical")
+	lg := logger.Logger()
+	lg.SetBackend(logging.AddModuleLevel(logging.NewLogBackend(io.Discard, "", 0)))
 }
 
 // World is a set of channels sharing one ACL service and one cast of users.
